@@ -211,12 +211,59 @@ ut!(c12_upto_2_noinstr, 2, 0);
 // ---- CODE.RAND through the registry ---------------------------------------------------------------
 use crate::gen::registry as reg;
 
-/// CODE.RAND: never more points than |n| nor than max-points-in-random-expressions; n is popped.
-fn code_rand(maxp: i32) {
+/// CODE.RAND hands `min(|n|, |max-points-in-random-expressions|)` to the generator: the generator is
+/// replaced by a recorder, so the real bound computation of CODE.RAND is checked for EVERY INTEGER
+/// operand and EVERY configured maximum (incl. i32::MIN and negative values).
+// unique initial patterns: see the note on `static mut` in stubs.rs
+const REC_BASE: usize = 0x5EED_0000_0004_0101;
+static mut REC_MAX: usize = 0x5EED_0000_0004_0201;
+static mut REC_CALLS: usize = REC_BASE;
+pub fn random_code_recorder(_st: &pushr::push::state::PushState, _c: &InstructionCache, max_points: usize) -> Option<Item> {
+    unsafe {
+        REC_MAX = max_points;
+        REC_CALLS += 1;
+    }
+    None
+}
+
+#[kani::proof]
+#[kani::unwind(10)]
+#[kani::stub(std::hash::RandomState::new, crate::stubs::random_state_new)]
+#[kani::stub(pushr::push::instructions::Instruction::new, crate::stubs::instruction_new)]
+#[kani::stub(std::collections::HashMap::insert, crate::stubs::hashmap_insert)]
+#[kani::stub(pushr::push::random::CodeGenerator::random_code, random_code_recorder)]
+pub fn c12_code_rand_bound_any_operand() {
+    code_rand_bound_body();
+}
+
+pub fn code_rand_bound_body() {
+    let mut ins = reg::fetch_CODE_RAND();
+    let mut st = build(&Shape { ni: 2, ..SHAPE0 });
+    let maxp: i32 = kani::any();
+    st.configuration.max_points_in_random_expressions = maxp;
+    let n = *st.int_stack.get(0).unwrap();
+    let c = cache(1);
+    (ins.execute)(&mut st, &c);
+    assert!(st.int_stack.size() == 1, "CODE.RAND must consume exactly its INTEGER operand");
+    let (calls, m) = unsafe { (REC_CALLS - REC_BASE, REC_MAX) };
+    assert!(calls == 1, "CODE.RAND must ask the generator exactly once");
+    let an = (n as i64).abs() as usize;
+    let am = (maxp as i64).abs() as usize;
+    assert!(m <= an, "CODE.RAND allows more points than |n|");
+    assert!(m <= am, "CODE.RAND allows more points than max-points-in-random-expressions");
+    assert!(m == an || m == am, "CODE.RAND bound is not min(|n|, |max points|)");
+    kani::cover!(n < -30, "large negative operand reachable");
+    std::mem::forget(st);
+    std::mem::forget(c);
+    std::mem::forget(ins);
+}
+
+/// CODE.RAND end to end (real generator) for operands whose bound is <= 2.
+fn code_rand(n: i32, maxp: i32) {
     let mut ins = reg::fetch_CODE_RAND();
     let mut st = build(&Shape { ni: 1, ..SHAPE0 });
     st.configuration.max_points_in_random_expressions = maxp;
-    let n = *st.int_stack.get(0).unwrap();
+    *st.int_stack.get_mut(0).unwrap() = n;
     let c = cache(1);
     (ins.execute)(&mut st, &c);
     assert!(st.int_stack.size() == 0, "CODE.RAND must consume its INTEGER operand");
@@ -234,7 +281,7 @@ fn code_rand(maxp: i32) {
     std::mem::forget(ins);
 }
 macro_rules! cr {
-    ($name:ident, $maxp:expr) => {
+    ($name:ident, $n:expr, $maxp:expr) => {
         #[kani::proof]
         #[kani::unwind(10)]
         #[kani::stub(std::hash::RandomState::new, crate::stubs::random_state_new)]
@@ -244,11 +291,14 @@ macro_rules! cr {
         #[kani::stub(pushr::push::random::CodeGenerator::random_float_vector, dead_float_vector)]
         #[kani::stub(pushr::push::random::CodeGenerator::random_int_vector, dead_int_vector)]
         pub fn $name() {
-            code_rand($maxp);
+            code_rand($n, $maxp);
             kani::cover!(true, "reached end");
         }
     };
 }
-cr!(c12_code_rand_max2, 2);
-cr!(c12_code_rand_max1, 1);
-cr!(c12_code_rand_maxneg2, -2);
+cr!(c12_code_rand_n0, 0, 25);
+cr!(c12_code_rand_n1, 1, 25);
+cr!(c12_code_rand_n2, 2, 25);
+cr!(c12_code_rand_nneg2, -2, 25);
+cr!(c12_code_rand_nmin_max2, i32::MIN, 2);
+cr!(c12_code_rand_n100_maxneg2, 100, -2);
